@@ -187,6 +187,21 @@ def run(ctx):
         except Exception as e:
             ctx.fail(case, 'discover_df raised %s: %s' % (type(e).__name__, str(e)[:300]))
             continue
+        # ---- asking for regular expressions as well adds the rex constraint and changes no other statistic
+        if i % 3 == 0:
+            try:
+                with contextlib.redirect_stderr(err), contextlib.redirect_stdout(err):
+                    cs2 = discover_df(df.copy(), inc_rex=True)
+                got2 = cs2.to_dict()['fields'] if cs2 is not None else {}
+                ctx.bump('with_rex')
+                for nm in set(got) | set(got2):
+                    a_ = {k_: v_ for k_, v_ in (got.get(nm) or {}).items() if k_ != 'rex'}
+                    b_ = {k_: v_ for k_, v_ in (got2.get(nm) or {}).items() if k_ != 'rex'}
+                    if repr(a_) != repr(b_):
+                        ctx.fail(dict(case, field=nm), 'field %r: discovery with inc_rex=True gives %r, without %r (the other '
+                                 'statistics must not depend on it)' % (nm, b_, a_))
+            except Exception:
+                ctx.bump('with_rex.raised')
         for nm, col in cols.items():
             want = spec_discover(col)
             g = got.get(nm)
@@ -245,7 +260,7 @@ def sqlite_layer(ctx, rng):
                 if t == 'int':
                     col['cells'] = [None if c is None else max(-2 ** 62, min(2 ** 62, c)) for c in col['cells']]
                 if t == 'string':
-                    col['cells'] = [None if c is None or c == '' else c for c in col['cells']]
+                    col['cells'] = [None if c is None else c for c in col['cells']]      # '' stays: a string of length 0, not NULL
                 col['cells'] = (col['cells'] + [None] * nrows)[:nrows]
                 cols[nm] = col
             decl = {'int': 'integer', 'real': 'real', 'string': 'text', 'bool': 'boolean'}
